@@ -131,7 +131,7 @@ def make_info(ctx, c, variant=0):
     ni = zs.NetworkInfo(
         extended_pan_id=zt.ExtendedPanId(epan), pan_id=zt.PanId(pan ^ x), nwk_update_id=zt.uint8_t(c["update_id"]), nwk_manager_id=zt.NWK(0),
         channel=zt.uint8_t(c["channel"]), channel_mask=zt.Channels.from_channel_list([c["channel"], 20]), security_level=zt.uint8_t(5),
-        network_key=zs.Key(key=zt.KeyData(bytes([0x60 + x] * 15 + [7])), tx_counter=zt.uint32_t(c["nwk_fc"]), seq=zt.uint8_t(c["key_seq"])),
+        network_key=zs.Key(key=zt.KeyData(bytes([0x60 + x] * 15 + [7])), tx_counter=zt.uint32_t(c["nwk_fc"] if x == 0 else 0x12300 + x), seq=zt.uint8_t(c["key_seq"])),
         tc_link_key=zs.Key(key=zt.KeyData(tc_key), tx_counter=zt.uint32_t(0x500 + x),
                            partner_ieee=node_ieee if c["tc_known"] is True else
                            (zt.EUI64.UNKNOWN if c["tc_known"] is False else zt.EUI64.convert("ff:ff:ff:ff:ff:ff:ff:ff"))),
